@@ -212,17 +212,17 @@ def _pf(lat, lon, i, surface, aa):
     return F.es(me, aa, 5, 17)
 
 
-def w_inter(_):
+def w_inter(bound):
     """re-entrancy (preemption bound 1, engine.interleave): a pair decode suspended before each of its source lines while
     the decode of another aircraft's pair runs to completion; both must give the answers they give alone."""
     from engine.util import interleaved_ok
     acc = Acc()
     for fn, cases in INTER:
-        bad_, n = interleaved_ok(getattr(pms.adsb, fn), cases())
+        bad_, n = interleaved_ok(getattr(pms.adsb, fn), cases(), bound=bound or 1)
         acc.n += n
         acc.c["interleaved_schedules"] += n
         for a_, nm, k_ in bad_:
-            acc.bad("%s:answer_changes_when_another_call_runs_in_between" % "surface", {"inter": fn, "a": list(a_), "preempt_before_line_event": k_})
+            acc.bad("%s:answer_changes_when_another_call_runs_in_between" % "surface", {"inter": fn, "a": list(a_), "preempt_before_line_event": k_, "bound": bound or 1})
         acc.out.add(("inter", fn))
     return acc.res()
 
@@ -238,7 +238,7 @@ INTER = [("surface_position", _sfc_pairs), ("position", _sfc_pairs)]
 
 def w_any(t):
     if t[0] == "r":
-        return w_inter(None)
+        return w_inter(t[1])
     if t[0] == "x":
         return w_cross(None)
     return w_alias(t[1]) if t[0] == "a" else w_lats(t[1])
@@ -260,13 +260,13 @@ def run(ctx):
     recvs = RECV_T if ctx.thorough else RECV
     al = [Fr(3, 10), Fr(100123, 10000), Fr(4001234, 100000), Fr(449, 10), Fr(5995, 100), Fr(867, 10), Fr(893, 10), Fr(2, 1)]
     al += [Fr(t) + o for t in list(C.TRANS.values())[::6] for o in (Fr(-1, 1000), Fr(1, 1000))]
-    ctx.pmap(w_any, [("l", (c, recvs, ctx.seed)) for c in chunks(lats, 6)] + [("a", al), ("x", None), ("r", None)])
+    ctx.pmap(w_any, [("l", (c, recvs, ctx.seed)) for c in chunks(lats, 6)] + [("a", al), ("x", None), ("r", None)] + ([("r", 2)] if ctx.thorough else []))
     ctx.cov["latitudes"] = len(lats)
     ctx.cov["receiver_offsets"] = len(recvs)
 
 
 def replay(case):
     if "inter" in case:
-        return [(s_, c_) for s_, c_ in w_inter(None)["viols"] if c_["inter"] == case["inter"]][:1]
+        return [(s_, c_) for s_, c_ in w_inter(case.get("bound"))["viols"] if c_["inter"] == case["inter"]][:1]
     s = judge(tuple(case["p"]))
     return [(s, case), (s + ":joint_with_ignored_fields_of_both_frames", case)] + [(s + ":step%d_of_%s" % (i, o), case) for i in range(3) for o in ("NSN", "SNS")] if s else []
